@@ -739,6 +739,96 @@ class FakeBlock:
         return RecView(self, roi)
 
 
+class MovedView:
+    """numpy.moveaxis of a recording array (a view: no pixel is copied).  Only what a loop over 2-D
+    planes needs: reshape(-1, ny, nx) with the two image axes moved to the end.  numpy returns a
+    view from that reshape when the remaining axes can be merged without copying -- i.e. unless axes
+    longer than 1 remain on *both* sides of the image axes (their strides then do not chain) -- and a
+    copy otherwise; iteration yields the planes in C order."""
+
+    def __init__(self, base, perm):
+        self.base, self.perm = base, tuple(perm)
+        self.shape = tuple(base.shape[i] for i in perm)
+        self.dtype = base.dtype
+
+    @property
+    def ndim(self):
+        return len(self.shape)
+
+    def reshape(self, *shape):
+        if len(shape) == 1 and isinstance(shape[0], (tuple, list)):
+            shape = tuple(shape[0])
+        n = len(self.perm)
+        yx = self.perm[-2:]
+        lead = self.perm[:-2]
+        if not (len(shape) == 3 and shape[0] == -1 and yx[1] == yx[0] + 1 and list(lead) == sorted(lead)):
+            raise Unsupported("reshape of a moved view other than (-1, ny, nx)")
+        for want, have in zip(shape[1:], self.shape[-2:]):
+            if not (want is have or bool(want == have)):
+                raise ValueError("cannot reshape array")
+        before = [i for i in lead if i < yx[0] and not _is_one(self.base.shape[i])]
+        after = [i for i in lead if i > yx[1] and not _is_one(self.base.shape[i])]
+        ny, nx = self.shape[-2:]
+        copies = bool(before) and bool(after) and not bool(symx.And(ny == 1, nx == 1))
+        target = self.base
+        if copies:
+            target = RecArray(self.base.shape, ("copy-of", self.base), self.base.dtype)
+            target.copy_of = self.base
+        return PlaneStack(target, lead, yx, n)
+
+    def __iter__(self):
+        raise Unsupported("iteration over a moved view")
+
+
+def _is_one(v):
+    return (not isinstance(v, Sym)) and v == 1
+
+
+class PlaneStack:
+    """(N, ny, nx) stack of the 2-D planes of `target` (the caller's array, or a copy of it)"""
+
+    def __init__(self, target, lead, yx, n):
+        self.target, self.lead, self.yx, self.n = target, lead, yx, n
+        dims = []
+        for i in lead:
+            d = target.shape[i]
+            if isinstance(d, Sym):
+                raise Unsupported("symbolic number of planes")
+            dims.append(int(d))
+        self.dims = dims
+
+    @property
+    def shape(self):
+        k = 1
+        for d in self.dims:
+            k *= d
+        return (k, self.target.shape[self.yx[0]], self.target.shape[self.yx[1]])
+
+    ndim = 3
+
+    @property
+    def dtype(self):
+        return self.target.dtype
+
+    def _roi(self, idx):
+        roi = [slice(None)] * self.n
+        for ax, i in zip(self.lead, idx):
+            roi[ax] = i
+        return tuple(roi)
+
+    def __len__(self):
+        return self.shape[0]
+
+    def __iter__(self):
+        for idx in real_np.ndindex(*self.dims):
+            yield RecView(self.target, self._roi(idx))
+
+    def __getitem__(self, k):
+        if isinstance(k, int):
+            return RecView(self.target, self._roi(real_np.unravel_index(k, self.dims) if self.dims else ()))
+        raise Unsupported("slicing a plane stack")
+
+
 def _round_f32(v, is_int):
     """binary32 rounding of a real: integers up to 2^24 are exact; otherwise a fresh value within
     2^-24 relative distance (round to nearest; the sign is kept, zero stays zero)"""
@@ -767,6 +857,20 @@ class NP:
 
     def __getattr__(self, k):
         return getattr(real_np, k)
+
+    @staticmethod
+    def moveaxis(a, source, destination):
+        if isinstance(a, (RecArray, FakeBlock)):
+            n = len(a.shape)
+            src = [source] if isinstance(source, int) else list(source)
+            dst = [destination] if isinstance(destination, int) else list(destination)
+            src = [x % n for x in src]
+            dst = [x % n for x in dst]
+            order = [i for i in range(n) if i not in src]
+            for d_, s_ in sorted(zip(dst, src)):
+                order.insert(d_, s_)
+            return MovedView(a, order)
+        return real_np.moveaxis(a, source, destination)
 
     @staticmethod
     def isfinite(a):
